@@ -12,7 +12,7 @@ for d in seeded/S*/; do
   if [ -n "$SWEEP_MATCH" ] && ! echo "$id" | grep -Eq "$SWEEP_MATCH"; then continue; fi
   prop=$(python3 -c "import json;print(json.load(open('$d/meta.json'))['property'])")
   checks="$prop"
-  case $id in S18*|S57*) checks="C09";; S87*) checks="C05";; esac
+  case $id in S18_*|S57_*) checks="C09";; S87_*) checks="C05";; esac
   cd "$REPO"
   if [ -n "$(git status --porcelain --untracked-files=no)" ]; then echo "$REPO not clean"; exit 2; fi
   if ! git apply "$HERE/$d/patch.diff" 2>/dev/null; then echo "$id: patch does not apply to the current tree"; cd "$HERE"; continue; fi
